@@ -28,7 +28,7 @@ RULE = ('cases: (a) bit patterns -- all 2**16 half patterns exhaustively in both
         'pattern is pushed through every decode/encode/pack/unpack/convert helper and compared with struct; (b) two\'s '
         'complement: all (w,v) for w<=10, boundary values for w in {16,32,64,65}; (c) FPNum add/sub/mul/compare on pairs drawn '
         'from boundary patterns of all three formats, floats, raw (s,e,m,p) tuples and results of earlier operations, judged as '
-        'Fractions; (d) FixedPoint helper on all formats (1,iw<=4,fw<=4): all operand pairs when w<=6 (quick) / w<=8 (thorough), '
+        'Fractions; (d) FixedPoint helper on all formats (1,iw<=4,fw<=4): all operand pairs when w<=6 (quick) / all formats (thorough), '
         'boundary x boundary + random otherwise.  evaluations = helper calls judged.  A case is non-trivial when it is not the '
         'all-zero pattern / value / operand pair; distinct by content (format, pattern | w, v | operand descriptors | format, x, y)')
 SHARDS = {'quick': 1, 'thorough': 16}
@@ -344,10 +344,10 @@ def pattern_cases(fmt, tier, seed, shard):
         return
     rnd = rng(seed, 'C12', 'patterns', fmt, shard)
     if fmt == 'sp':
-        nrandom = 12 if tier == 'quick' else 400
+        nrandom = 12 if tier == 'quick' else 1000
         full = True
     else:
-        nrandom = 2 if tier == 'quick' else 24
+        nrandom = 2 if tier == 'quick' else 64
         full = tier == 'thorough'
     k = 0
     for e in range(1 << ew):
@@ -551,7 +551,7 @@ def arith_operands(tier, rnd):
 def arith_cases(tier, seed, shard):
     rnd = rng(seed, 'C12', 'arith', shard)
     ops = arith_operands(tier, rnd)
-    npairs = 9000 if tier == 'quick' else 60000
+    npairs = 9000 if tier == 'quick' else 120000
     # structured pairs: same operand (exact cancellation, equal compare), negated operand, neighbours, then random pairs
     k = 0
     for a in ops:
@@ -660,7 +660,7 @@ def fxp_formats(tier):
 
 def fxp_cases(tier, seed, shard):
     rnd = rng(seed, 'C12', 'fxp', shard)
-    exh = 6 if tier == 'quick' else 8
+    exh = 6 if tier == 'quick' else 9
     i, nsh = shard if shard else (0, 1)
     k = 0
     for iw, fw in fxp_formats(tier):
